@@ -25,6 +25,7 @@ const (
 	FaultCLMinus   = "cl_minus"   // declared Content-Length under-stated by Val
 	FaultNoStatus  = "no_status"  // response: terminal status removed (no grpc-status / end frame)
 	FaultExtraData = "extra_data" // response: data after the end
+	FaultEndTrail  = "end_trail"  // response: bytes after the JSON object inside a Connect end-of-stream frame (length adjusted)
 	FaultReplace   = "replace"    // whole body replaced by Data (native fuzz targets)
 	FaultSplice    = "splice"     // Data written over the body at offset At (the body grows if Data reaches past its end)
 )
@@ -245,6 +246,18 @@ func applyResponseFault(sc *Scenario, v *BackendView, resp *builtResponse) {
 		return
 	case FaultExtraData:
 		resp.Body = appendFrame(resp.Body, 0, []byte("extra"))
+		return
+	case FaultEndTrail:
+		if v.Protocol == ProtoConnect && v.Sub == "stream" {
+			if offs := frameOffsets(resp.Body); len(offs) > 0 {
+				o := offs[len(offs)-1]
+				if resp.Body[o] == 2 { // an uncompressed end frame
+					tails := []string{`{"error":{"code":"internal","message":"late"}}`, "\x00\x00", "x", "]", "{}", ` {"metadata":{}}`}
+					payload := append(append([]byte{}, resp.Body[o+5:]...), tails[f.At%len(tails)]...)
+					resp.Body = appendFrame(resp.Body[:o:o], 2, payload)
+				}
+			}
+		}
 		return
 	}
 	body, changed := mutateBody(f, resp.Body, enveloped)
